@@ -26,6 +26,7 @@ type Stream struct {
 	Over   int // number of draws made past the end of a replay list
 }
 
+//go:norace
 func NewTape(seed uint64) *Tape {
 	return &Tape{
 		Seed: seed,
@@ -35,6 +36,7 @@ func NewTape(seed uint64) *Tape {
 	}
 }
 
+//go:norace
 func newStream(name string, seed uint64) *Stream {
 	s := &Stream{name: name}
 	s.rng.seed(seed)
@@ -49,10 +51,12 @@ type TapeData struct {
 	S    []int  `json:"schedule"`
 }
 
+//go:norace
 func (t *Tape) Data() TapeData {
 	return TapeData{Seed: t.Seed, W: t.W.used(), F: t.F.used(), S: t.S.used()}
 }
 
+//go:norace
 func (s *Stream) used() []int {
 	n := s.pos
 	if n > len(s.Vals) {
@@ -67,6 +71,7 @@ func (s *Stream) used() []int {
 	return out
 }
 
+//go:norace
 func ReplayTape(d TapeData) *Tape {
 	mk := func(name string, v []int) *Stream {
 		return &Stream{name: name, replay: true, Vals: append([]int(nil), v...)}
@@ -75,6 +80,8 @@ func ReplayTape(d TapeData) *Tape {
 }
 
 // Draw returns a value in [0,n). n<=1 returns 0 and consumes nothing.
+//
+//go:norace
 func (s *Stream) Draw(n int) int {
 	if n <= 1 {
 		return 0
@@ -104,6 +111,8 @@ func (s *Stream) Draw(n int) int {
 // Biased returns 0 with probability num/den, otherwise uniform in [1,n).
 // What is recorded is the returned value, so replay and shrinking see plain
 // decisions, not the generator's internals.
+//
+//go:norace
 func (s *Stream) Biased(n, num, den int) int {
 	if n <= 1 {
 		return 0
@@ -121,23 +130,34 @@ func (s *Stream) Biased(n, num, den int) int {
 }
 
 // Convenience generators over Draw.
-func (s *Stream) Bool() bool           { return s.Draw(2) == 1 }
+//
+//go:norace
+func (s *Stream) Bool() bool { return s.Draw(2) == 1 }
+
+//go:norace
 func (s *Stream) Range(lo, hi int) int { return lo + s.Draw(hi-lo+1) } // inclusive
+//go:norace
 func (s *Stream) Chance(num, den int) bool {
 	// true with probability num/den; 0 (= false) is the simple value
 	return s.Biased(2, den-num, den) == 1
 }
+
+//go:norace
 func (s *Stream) Pick(n int) int { return s.Draw(n) }
 
 // Raw gives 64 pseudo-random bits derived deterministically from a bounded
 // draw; used to seed content generators (the draw, not the bits, is recorded).
+//
+//go:norace
 func (s *Stream) Raw() uint64 {
 	v := s.Draw(1 << 30)
 	return splitmix(uint64(v), 77)
 }
 
+//go:norace
 func (s *Stream) Pos() int { return s.pos }
 
+//go:norace
 func (d TapeData) String() string {
 	b, _ := json.Marshal(d)
 	return string(b)
@@ -148,6 +168,7 @@ func (d TapeData) String() string {
 
 type xoshiro struct{ s [4]uint64 }
 
+//go:norace
 func splitmix(x uint64, k uint64) uint64 {
 	x += 0x9e3779b97f4a7c15 * (k + 1)
 	x = (x ^ (x >> 30)) * 0xbf58476d1ce4e5b9
@@ -156,8 +177,11 @@ func splitmix(x uint64, k uint64) uint64 {
 }
 
 // Split derives the seed of run i from a base seed.
+//
+//go:norace
 func Split(base uint64, i uint64) uint64 { return splitmix(base^0x5851f42d4c957f2d, i) }
 
+//go:norace
 func (x *xoshiro) seed(s uint64) {
 	for i := range x.s {
 		s = splitmix(s, uint64(i))
@@ -168,8 +192,10 @@ func (x *xoshiro) seed(s uint64) {
 	}
 }
 
+//go:norace
 func rotl(x uint64, k uint) uint64 { return (x << k) | (x >> (64 - k)) }
 
+//go:norace
 func (x *xoshiro) next() uint64 {
 	r := rotl(x.s[1]*5, 7) * 9
 	t := x.s[1] << 17
@@ -186,14 +212,21 @@ func (x *xoshiro) next() uint64 {
 // seeded from a tape draw.
 type Rand struct{ x xoshiro }
 
+//go:norace
 func NewRand(seed uint64) *Rand { r := &Rand{}; r.x.seed(seed); return r }
+
+//go:norace
 func (r *Rand) Intn(n int) int {
 	if n <= 0 {
 		panic(fmt.Sprintf("Intn(%d)", n))
 	}
 	return int(r.x.next() % uint64(n))
 }
+
+//go:norace
 func (r *Rand) Uint64() uint64 { return r.x.next() }
+
+//go:norace
 func (r *Rand) Float64() float64 {
 	return float64(r.x.next()>>11) / float64(1<<53)
 }
